@@ -900,7 +900,7 @@ fn main() {
     let mut rng = Rng::new(args.seed);
     let thorough = args.tier == "thorough";
     let mut cx = Ctx {
-        cases: Cases::new("From V Require Import Base.Util Gql.Ast Peg.Peg Gen.C07_grammar_gen C07.Builder C07.Model C07.Corr.", "case", "agree", "holds", if thorough { 250 } else { 90 }),
+        cases: Cases::new("From V Require Import Base.Util Gql.Ast Peg.Peg Gen.C07_grammar_gen C07.Builder C07.Model C07.Corr.", "case", "agree", "holds", if thorough { 250 } else { 170 }),
         distinct: HashSet::new(), stats: BTreeMap::new(), max_len: if thorough { 700 } else { 420 }, samples: vec![],
     };
 
@@ -929,7 +929,7 @@ fn main() {
     }
 
     // 2. gen.rs schemas and documents, one definition (or a few) at a time, canonical + trivia variants
-    let n_schemas = if thorough { 320 } else { 14 };
+    let n_schemas = if thorough { 320 } else { 30 };
     for _ in 0..n_schemas {
         let s = gen_schema(&mut rng, &SchemaCfg::default());
         // schema pieces
@@ -953,7 +953,7 @@ fn main() {
     }
 
     // 3. production-coverage generator
-    let n_pg = if thorough { 8000 } else { 260 };
+    let n_pg = if thorough { 8000 } else { 700 };
     for i in 0..n_pg {
         let kind = if i % 2 == 0 { Kind::Op } else { Kind::Ts };
         let mut pg = PG { rng: &mut rng, t: vec![], budget: 14, constructs: vec![] };
@@ -965,7 +965,7 @@ fn main() {
     }
 
     // 4. malformed stream
-    let n_mal = if thorough { 7000 } else { 260 };
+    let n_mal = if thorough { 7000 } else { 600 };
     for i in 0..n_mal {
         let kind = if i % 2 == 0 { Kind::Op } else { Kind::Ts };
         let text = if i % 3 == 0 { random_soup(&mut rng) } else {
